@@ -9,6 +9,7 @@ import (
 
 	"verif/harness/core"
 	"verif/harness/eco"
+	"verif/harness/gen"
 )
 
 func init() {
@@ -127,6 +128,16 @@ func runC01(c *core.Ctx, ck *Check) {
 		j := jobs[i]
 		r := c.Rand("pool", j.e.Name, itoa(j.k))
 		p := BuildPool(j.e, r, size, w)
+		if j.k == 3 { // every committed 64-bit FNV / CRC collision pair side by side
+			seenC := map[string]bool{}
+			for _, s := range p.Strs {
+				seenC[s] = true
+			}
+			for _, cp := range gen.CommittedCollisions() {
+				p.Add(cp.A, seenC)
+				p.Add(cp.B, seenC)
+			}
+		}
 		if j.e.Name == "alpm" {
 			// two families; mixed triples are the scoped exclusion
 			a, b := &Pool{Eco: j.e}, &Pool{Eco: j.e}
